@@ -528,7 +528,7 @@ def project(pages):
             j = walk(c, d + 1)
             if isinstance(c, LTTextBox):
                 boxes[id(c)] = j
-        if isinstance(o, (LTPage, LTFigure)) and o.groups is not None:
+        if isinstance(o, LTPage) and o.groups is not None:   # XMLConverter shows the grouping of a page only
             add("layout", d + 1, o.groups)
 
             def grp(g, dd):
